@@ -113,6 +113,29 @@ pub fn check_encodable(n: &RNotification) {
     }
 }
 
+/// C20: what a subscriber's client decodes from the bytes the link writes for this notification (router::MaybePacket::from,
+/// Protocol::write of the link's protocol, and the same protocol's reader on the other side)
+pub fn on_the_wire(n: &RNotification, v5: bool) -> Result<Option<Packet>, String> {
+    use crate::protocol::Protocol;
+    let packet: crate::router::MaybePacket = n.clone().into();
+    let Some(packet) = packet else { return Ok(None) };
+    let mut buf = bytes::BytesMut::new();
+    let r = catch_unwind(AssertUnwindSafe(|| {
+        if v5 {
+            crate::protocol::v5::V5.write(packet, &mut buf)?;
+            crate::protocol::v5::V5.read_mut(&mut buf, 1 << 20)
+        } else {
+            crate::protocol::v4::V4.write(packet, &mut buf)?;
+            crate::protocol::v4::V4.read_mut(&mut buf, 1 << 20)
+        }
+    }));
+    match r {
+        Err(_) => Err("writing / reading it back panicked".to_string()),
+        Ok(Err(e)) => Err(format!("writing / reading it back failed: {:?}", e)),
+        Ok(Ok(p)) => Ok(Some(p)),
+    }
+}
+
 /// what the link would read from its outgoing buffer; answers Unschedule with Ready like the link does
 pub fn drain(r: &mut Router, c: &Client) -> Vec<RNotification> {
     let mut out = vec![];
@@ -3141,10 +3164,39 @@ fn everything_the_router_hands_to_a_link_is_encodable_by_both_protocols() {
                         send(&mut r, &p, vec![pubrel(7)]);
                     }
                     let _ = drain(&mut r, &p);
-                    let got = receive_all(&mut r, &s1);
+                    let got: Vec<RNotification> = drain(&mut r, &s1).into_iter().filter(|n| matches!(n, RNotification::Forward(_))).collect();
                     if got.len() != 1 {
                         fail = Some(format!("input=[{}] detail=[subscriber received {} messages]", desc, got.len()));
                         break 'outer;
+                    }
+                    // "same topic and payload; MQTT 5 properties are dropped towards 3.1.1 subscribers and preserved towards
+                    // MQTT 5 subscribers": decode what each kind of link writes for this forward
+                    for v5 in [false, true] {
+                        let sent = props(pk);
+                        let verdict = match on_the_wire(&got[0], v5) {
+                            Err(e) => Err(e),
+                            Ok(Some(Packet::Publish(pb, pr))) => {
+                                if &pb.topic[..] != b"a/b" || &pb.payload[..] != b"x" {
+                                    Err(format!("topic / payload on the wire are {:?} / {:?}", pb.topic, pb.payload))
+                                } else if !v5 {
+                                    if pr.is_some() { Err(format!("an MQTT 3.1.1 subscriber is sent properties {:?}", pr)) } else { Ok(()) }
+                                } else {
+                                    // an absent property set and one with nothing in it are the same bytes; the expiry interval
+                                    // may have been counted down
+                                    let norm = |p: Option<PublishProperties>| p.map(|mut q| { q.message_expiry_interval = q.message_expiry_interval.map(|_| 0); q }).filter(|q| {
+                                        q.payload_format_indicator.is_some() || q.message_expiry_interval.is_some() || q.topic_alias.is_some() || q.response_topic.is_some()
+                                            || q.correlation_data.is_some() || !q.user_properties.is_empty() || !q.subscription_identifiers.is_empty() || q.content_type.is_some()
+                                    });
+                                    let (a, b) = (norm(sent.clone()), norm(pr.clone()));
+                                    if a != b { Err(format!("the publisher sent properties {:?}, an MQTT 5 subscriber is sent {:?}", sent, pr)) } else { Ok(()) }
+                                }
+                            }
+                            Ok(other) => Err(format!("the forward is written as {:?}", other)),
+                        };
+                        if let Err(e) = verdict {
+                            fail = Some(format!("input=[{}, subscriber on an MQTT {} link] detail=[{}]", desc, if v5 { "5" } else { "3.1.1" }, e));
+                            break 'outer;
+                        }
                     }
                     // a late subscriber gets the retained copy
                     let s2 = connect(&mut r, "s2", true).unwrap();
